@@ -172,17 +172,24 @@ def gen_cases(ctx, table):
         for _a in range(rng.randint(1, 3)):
             k = rng.randint(0, n)                  # the operand that performs the assignment
             tgt = rng.randint(1, n)
-            src_v = rng.randint(1, n + 2)
+            src_v = rng.choice([v for v in range(1, n + 3) if v != tgt])
             assigns.setdefault(k, []).append((tgt, src_v))
+        # which VARIABLE stands at each operator position: often the same identifier several times in a row
+        var_at = []
+        for pos in range(1, n + 1):
+            if var_at and rng.random() < 0.5:
+                var_at.append(var_at[-1])
+            else:
+                var_at.append(rng.randint(1, n) if rng.random() < 0.5 else pos)
         eff = []
         for pos in range(1, n + 1):
             for tgt, src_v in assigns.get(pos - 1, []):
                 cur[tgt] = cur[src_v]
-            eff.append(cur[pos])
+            eff.append(cur[var_at[pos - 1]])
         def operand(k):
             pre = "".join(f"o{t} = o{sv}; " for t, sv in assigns.get(k, []))
             return f"({pre}ev({k}))" if pre else f"ev({k})"
-        src = " ".join([operand(0)] + [f"o{i} {operand(i)}" for i in range(1, n + 1)])
+        src = " ".join([operand(0)] + [f"o{var_at[i - 1]} {operand(i)}" for i in range(1, n + 1)])
         # labels travel with the VALUES: the model sees the effective operator values in chain order
         cases.append({"family": "opassign-in-operand", "ops": eff, "harness_ops": env_ops,
                       "mode": "chain" if n > 1 else "fast", "src": src})
